@@ -115,6 +115,15 @@ func (a *Agent) Run(ctx context.Context) error {
 		return a.dryRun()
 	}
 
+	// Serialise the "already running?" check and the socket bind with every
+	// other start of the same DAG: without this, two starts issued at the same
+	// moment both find the socket silent and both run.
+	unlock, err := a.lockSocket()
+	if err != nil {
+		return err
+	}
+	defer unlock()
+
 	// Check if the DAG is already running.
 	if err := a.checkIsAlreadyRunning(); err != nil {
 		return err
@@ -160,6 +169,8 @@ func (a *Agent) Run(ctx context.Context) error {
 	if err := <-lnErr; err != nil {
 		return errFailedSetupUnixSocket
 	}
+	// The socket is listening: later starts will be refused by the check above.
+	unlock()
 
 	// Setup channels to receive status updates for each node in the DAG.
 	// It should receive node instance when the node status changes, for
@@ -496,6 +507,22 @@ func (a *Agent) checkPreconditions() error {
 		return err
 	}
 	return nil
+}
+
+// lockSocket takes an exclusive advisory lock on the DAG definition file, which
+// every start of the same DAG shares. The returned function releases it and may
+// be called more than once. A DAG without a definition file is not locked.
+func (a *Agent) lockSocket() (func(), error) {
+	f, err := os.Open(a.dag.Location)
+	if err != nil {
+		return func() {}, nil
+	}
+	if err := syscall.Flock(int(f.Fd()), syscall.LOCK_EX); err != nil {
+		_ = f.Close()
+		return nil, err
+	}
+	var once sync.Once
+	return func() { once.Do(func() { _ = f.Close() }) }, nil
 }
 
 // checkIsAlreadyRunning returns error if the DAG is already running.
